@@ -397,6 +397,19 @@ pub fn deflate_case(
         }
     }
     tr.ev(json!({"ev": "defl_end", "misuse": false, "ended": true, "in_total": pos}));
+    // after the end: Finish keeps returning stream-end with nothing written, anything else is a
+    // buffer error (the calls are logged and judged by the contract; output is not extended)
+    let mut scratch = Vec::new();
+    let mut p2 = pos;
+    for (k, &(fl, ol)) in [(MZFlush::None, 16usize), (MZFlush::Finish, 1), (MZFlush::Sync, 200), (MZFlush::Finish, 300),
+                          (MZFlush::Full, 5), (MZFlush::None, 1)].iter().enumerate() {
+        if (k + input.len() + finish_out) % 3 == 0 {
+            continue;
+        }
+        if do_call(tr, &mut p2, (k % 2) * 3, ol, fl, &mut scratch).is_none() {
+            return;
+        }
+    }
     let zl = cfgj["flags"].as_i64().unwrap_or(0) & 0x1000 != 0;
     tr.ev(json!({"ev": "stream", "zlib": zl, "mode": "verify", "z": bytes(&out_all), "plen": pos}));
     tr.ev(json!({"ev": "compressed", "cfg": cfgj, "in_len": pos, "out_len": out_all.len(), "streamed": true}));
